@@ -153,13 +153,13 @@ example : normalizeText [10, 10, 97, 32, 32, 10, 10, 98, 9, 10, 32, 10] = [97, 1
       the start followed by exactly the text the device printed for those exchanges, in order — and
       what is unread is only (a suffix of) the last exchange's trailing blanks: the session is in
       step, the next operation starts clean;
-    * processed result = `_process_output` of that raw buffer. -/
+    * processed result = `_process_output` of that raw buffer without its leading whitespace. -/
 theorem interact_exact {cfg : Cfg} {complete : List Bytes} (hstrict : cfg.rough = false)
     (hret : cfg.ret = [NL]) (ps : List (Ev × Step)) (extra : List Step)
     (hg : ∀ p ∈ ps, ∃ Pr Pc, GoodStep cfg complete Pr Pc p.1 p.2)
     (w : Wire) (hres : ∀ x ∈ w.avail, isHws x = true) :
     ∃ raw w', sendInputsInteract cfg scriptDev (ps.map (·.1)) complete (w, ps.map (·.2) ++ extra) =
-        some ((raw, processOutput cfg raw false),
+        some ((raw, processOutput cfg (raw.dropWhile isWs) false),
               (w', (ps.drop (consumed complete ps).length).map (·.2) ++ extra)) ∧
       raw ++ w'.avail = w.avail ++ ((consumed complete ps).map (fun p => stepText p.1 p.2)).flatten ∧
       (∀ x ∈ w'.avail, isHws x = true) ∧
@@ -170,66 +170,24 @@ theorem interact_exact {cfg : Cfg} {complete : List Bytes} (hstrict : cfg.rough 
   unfold sendInputsInteract
   rw [h1]
 
-/-- **the processed result of an interactive session is the dialogue, trimmed**: every line of
-    (blank residue ++ the text of the exchanges that took place) right-trimmed, surrounding empty
-    lines dropped.  With no residue (`w.avail = []`) that is the dialogue text alone; a blank residue
-    left by the previous operation stays in front of the first line (known finding F23). -/
+/-- **the processed result of an interactive session is the dialogue, trimmed**: the text of the
+    exchanges that took place without its leading whitespace, every line right-trimmed, trailing
+    empty lines dropped — whatever blank residue the previous operation left unread (since fix
+    4c94c83; before it the residue stayed in front of the first line: finding F23) and whatever part
+    of the last trailing blanks has been read. -/
 theorem interact_result_normalized {cfg : Cfg} {complete : List Bytes} (hstrict : cfg.rough = false)
-    (hret : cfg.ret = [NL]) (ps : List (Ev × Step)) (hne : ps ≠ []) (extra : List Step)
+    (hret : cfg.ret = [NL]) (ps : List (Ev × Step)) (extra : List Step)
     (hg : ∀ p ∈ ps, ∃ Pr Pc, GoodStep cfg complete Pr Pc p.1 p.2)
     (w : Wire) (hres : ∀ x ∈ w.avail, isHws x = true) :
     ∃ raw s', sendInputsInteract cfg scriptDev (ps.map (·.1)) complete (w, ps.map (·.2) ++ extra) =
         some ((raw, normalizeText
-          (w.avail ++ ((consumed complete ps).map (fun p => stepText p.1 p.2)).flatten)), s') := by
-  obtain ⟨raw, w', h1, h2, h3, h4, _⟩ := interact_exact hstrict hret ps extra hg w hres
-  suffices heq : processOutput cfg raw false = normalizeText
-      (w.avail ++ ((consumed complete ps).map (fun p => stepText p.1 p.2)).flatten) from
+          (((consumed complete ps).map (fun p => stepText p.1 p.2)).flatten.dropWhile isWs)), s') := by
+  obtain ⟨raw, w', h1, h2, h3, _, _⟩ := interact_exact hstrict hret ps extra hg w hres
+  suffices heq : processOutput cfg (raw.dropWhile isWs) false = normalizeText
+      (((consumed complete ps).map (fun p => stepText p.1 p.2)).flatten.dropWhile isWs) from
     ⟨raw, _, by rw [h1, heq]⟩
-  -- the last exchange that took place
-  obtain ⟨p0, ps0, rfl⟩ := List.exists_cons_of_ne_nil hne
-  obtain ⟨init, last, hl⟩ : ∃ init last, consumed complete (p0 :: ps0) = init ++ [last] := by
-    rcases List.eq_nil_or_concat (consumed complete (p0 :: ps0)) with h | ⟨i, l, h⟩
-    · exact absurd h (consumed_ne_nil complete p0 ps0)
-    · exact ⟨i, l, by rw [h, List.concat_eq_append]⟩
-  have hlast : (consumed complete (p0 :: ps0)).getLast? = some last := by rw [hl]; simp
-  obtain ⟨t', ht'⟩ := h4 last hlast
-  obtain ⟨Pr, Pc, hgl⟩ := hg last (by
-    have : last ∈ consumed complete (p0 :: ps0) := by rw [hl]; simp
-    clear hl hlast h1 h2
-    revert this
-    generalize (p0 :: ps0) = l
-    induction l with
-    | nil => simp [consumed]
-    | cons a l ih =>
-      unfold consumed
-      split
-      · intro h; simp at h; subst h; simp
-      · intro h
-        rcases List.mem_cons.mp h with e | e
-        · subst e; simp
-        · exact List.mem_cons_of_mem _ (ih e))
-  rw [← h2]
-  -- raw = x ++ NL :: (q ++ t')
-  have htext : w.avail ++ ((consumed complete (p0 :: ps0)).map (fun p => stepText p.1 p.2)).flatten =
-      (w.avail ++ (init.map (fun p => stepText p.1 p.2)).flatten ++
-        (if last.2.echo then last.1.1 else []) ++ last.2.body) ++ NL :: (last.2.q ++ t') ++ w'.avail := by
-    rw [hl]
-    simp only [List.map_append, List.map_cons, List.map_nil, List.flatten_append, List.flatten_cons,
-      List.flatten_nil, List.append_nil, stepText, Step.respond, ← ht']
-    simp [List.append_assoc]
-  have hraw : raw = (w.avail ++ (init.map (fun p => stepText p.1 p.2)).flatten ++
-        (if last.2.echo then last.1.1 else []) ++ last.2.body) ++ NL :: (last.2.q ++ t') := by
-    have := h2.trans htext
-    exact List.append_cancel_right this
-  have ht'hws : ∀ x ∈ t', isHws x = true := fun x hx =>
-    hgl.t_hws x (by rw [← ht']; exact List.mem_append_left _ hx)
-  rw [normalizeText_append_hws _ _ h3, hraw]
-  exact processOutput_lines cfg hret _ _ (by simp [hgl.q_ne])
-    (by
-      intro hm
-      rcases List.mem_append.mp hm with h | h
-      · exact hgl.q_nl h
-      · exact hws_noNL ht'hws h)
+  rw [processOutput_eq_normalize cfg hret, ← lstrip_append_hws_normalize raw w'.avail h3, h2,
+    dropWhile_append_all _ _ (hws_ws hres)]
 
 /-! ### non-vacuity: a concrete pattern, device and commands inside the quantifier -/
 
@@ -452,22 +410,23 @@ theorem ixGood1b : GoodStep ixCfg ixComplete (isInfixB ixPw) (isInfixB exPrompt)
   t_hws := by decide
   fits_window := by decide
 
-/-- the full dialogue, arbitrary read sizes: the result is "enable\nPassword:\nr1#" -/
+/-- the full dialogue, arbitrary read sizes, a blank left unread by the previous operation:
+    the result is "enable\nPassword:\nr1#" -/
 example (cuts : List Nat) :
     ∃ raw s', sendInputsInteract ixCfg scriptDev [ixEv1, ixEv2] ixComplete
-        ({ cuts := cuts }, [ixSt1, ixSt2]) =
+        ({ avail := [32], cuts := cuts }, [ixSt1, ixSt2]) =
       some ((raw, [101, 110, 97, 98, 108, 101, 10, 80, 97, 115, 115, 119, 111, 114, 100, 58, 10, 114, 49, 35]), s') := by
   obtain ⟨raw, s', h⟩ := interact_result_normalized (cfg := ixCfg) (complete := ixComplete) rfl rfl
-    [(ixEv1, ixSt1), (ixEv2, ixSt2)] (by simp) []
+    [(ixEv1, ixSt1), (ixEv2, ixSt2)] []
     (by
       intro p hp
       simp only [List.mem_cons, List.not_mem_nil, or_false] at hp
       rcases hp with e | e <;> subst e
       · exact ⟨_, _, ixGood1⟩
       · exact ⟨_, _, ixGood2⟩)
-    { cuts := cuts } (by simp)
-  have hv : normalizeText ((consumed ixComplete [(ixEv1, ixSt1), (ixEv2, ixSt2)]).map
-      (fun p => stepText p.1 p.2)).flatten =
+    { avail := [32], cuts := cuts } (by intro x hx; simp at hx; subst hx; decide)
+  have hv : normalizeText (((consumed ixComplete [(ixEv1, ixSt1), (ixEv2, ixSt2)]).map
+      (fun p => stepText p.1 p.2)).flatten.dropWhile isWs) =
       [101, 110, 97, 98, 108, 101, 10, 80, 97, 115, 115, 119, 111, 114, 100, 58, 10, 114, 49, 35] := by decide
   exact ⟨raw, s', by rw [← hv]; simpa using h⟩
 
@@ -477,7 +436,7 @@ example (cuts : List Nat) :
 example (cuts : List Nat) :
     ∃ raw w', sendInputsInteract ixCfg scriptDev [ixEv1, ixEv2] ixComplete
         ({ cuts := cuts }, [ixSt1b, ixSt2]) =
-      some ((raw, processOutput ixCfg raw false), (w', [ixSt2])) ∧
+      some ((raw, processOutput ixCfg (raw.dropWhile isWs) false), (w', [ixSt2])) ∧
       w'.writes = [[101, 110, 97, 98, 108, 101], [NL]] := by
   obtain ⟨raw, w', h1, _, _, _, h5⟩ := interact_exact (cfg := ixCfg) (complete := ixComplete) rfl rfl
     [(ixEv1, ixSt1b), (ixEv2, ixSt2)] []
@@ -491,8 +450,8 @@ example (cuts : List Nat) :
   exact ⟨raw, w', by simpa [consumed, Step.ends, ixSt1b, ixComplete] using h1,
     by simpa [consumed, Step.ends, ixSt1b, ixComplete, ixEv1] using h5⟩
 
-/-- known finding F23, in the model: a blank left unread by the previous operation ends up in front
-    of an interactive result (a plain command's result does not depend on it: `send_input_exact`) -/
+/-- finding F23 (repaired by fix 4c94c83), in the model: WITHOUT the `lstrip()` a blank left unread by
+    the previous operation would end up in front of an interactive result -/
 example : normalizeText ([32] ++ [101, 10, 114, 49, 35]) ≠ normalizeText ([] ++ [101, 10, 114, 49, 35]) := by decide
 
 end Scrapli.Chan
